@@ -5,23 +5,33 @@ harness) -> TLC trace validation (RoutingTrace) -> classification -> evidence"""
 import json
 from vlib import *
 
-MC_CFG = """SPECIFICATION Spec
+MC_CFG_T = """SPECIFICATION Spec
 CONSTANTS
-  Mode = "%s"
-  Tier = "%s"
-  SuffixChecked = %s
-  RootRegexChecked = %s
-  OptionsSelectedOnly = %s
-  OptionsViaRouter = %s
+  Mode = "%(mode)s"
+  Tier = "%(tier)s"
+  SuffixChecked = %(SuffixChecked)s
+  RootRegexChecked = %(RootRegexChecked)s
+  RootSuffixChecked = %(RootSuffixChecked)s
+  OptionsSelectedOnly = %(OptionsSelectedOnly)s
+  OptionsViaRouter = %(OptionsViaRouter)s
 INVARIANTS Check OptionsInv
 CHECK_DEADLOCK FALSE
 """
+
+
+def mc_cfg(mode, tier, **legacy):
+    """configuration of MC_Routing; every Layer B constant is TRUE (the repaired code) unless named as legacy"""
+    consts = dict(SuffixChecked="TRUE", RootRegexChecked="TRUE", RootSuffixChecked="TRUE", OptionsSelectedOnly="TRUE", OptionsViaRouter="TRUE")
+    for k in legacy:
+        consts[k] = "FALSE"
+    return MC_CFG_T % dict(consts, mode=mode, tier=tier)
+
 
 # clause prefix -> property
 OWNER = {"C01": "C01", "C02": "C02", "C03": "C03", "C04": "C04", "C14": "C14", "C17": "C17", "C18": "C18"}
 
 PROPS = {
-    "C01": dict(modes={"quick": [("path", "quick"), ("regexpos", "quick"), ("media2", "quick")],
+    "C01": dict(modes={"quick": [("path", "quick"), ("regexpos", "quick"), ("media2", "quick"), ("sufroot", "quick")],
                        "thorough": [("path", "thorough"), ("headers", "quick"), ("regexpos", "thorough"), ("media2", "quick")]},
                 plan=dict(perms=0, slash=False, entries=["D", "S"], conc=8),
                 random={"quick": [("mixed", 220, 20), ("headers", 80, 24), ("headers", 40, 24, {"defReqCT": "application/json"})],
@@ -34,8 +44,8 @@ PROPS = {
                      "requests mutated from matching ones; each is sent through Dispatch and ServeHTTP of real "
                      "containers under both routers, and all requests of a table once more from 8 goroutines at once. Non-trivial = distinct (table, request, outcome) in which a "
                      "route function ran (the property's antecedent)."),
-    "C02": dict(modes={"quick": [("headers", "quick"), ("roots", "quick"), ("regexpos", "quick"), ("media2", "quick")],
-                       "thorough": [("headers", "thorough"), ("roots", "thorough"), ("path", "quick"), ("regexpos", "thorough"), ("media2", "quick")]},
+    "C02": dict(modes={"quick": [("headers", "quick"), ("roots", "quick"), ("regexpos", "quick"), ("media2", "quick"), ("sufroot", "quick")],
+                       "thorough": [("headers", "thorough"), ("roots", "thorough"), ("path", "quick"), ("regexpos", "thorough"), ("media2", "quick"), ("sufroot", "quick")]},
                 plan=dict(perms=0, slash=False, entries=["D", "S"]),
                 random={"quick": [("headers", 150, 24), ("mixed", 150, 20)],
                         "thorough": [("headers", 3000, 40), ("mixed", 3000, 30)]},
@@ -269,29 +279,37 @@ def check(run, replay=None):
 
         def run_mode(mm):
             mode, mtier = mm
-            return mm, tlc(run, "MC_Routing", MC_CFG % (mode, mtier, "TRUE", "TRUE", "TRUE", "TRUE"), workers=per, heap="6g",
+            return mm, tlc(run, "MC_Routing", mc_cfg(mode, mtier), workers=per, heap="6g",
                            tag="MC_Routing-%s-%s" % (mode, mtier), timeout=7200)
 
         # vacuity control: counter-models (earlier implementations of computeAllowedMethods) TLC must refute
         counters = []
         if run.prop == "C17":
-            counters.append(("agree", "FALSE", "MC_Routing-agree-legacy-options", "computeAllowedMethods walks all WebServices (legacy)"))
+            counters.append(("agree", dict(OptionsSelectedOnly=1, OptionsViaRouter=1), "OptionsInv", "MC_Routing-agree-legacy-options",
+                             "computeAllowedMethods walks all WebServices (legacy)"))
         if run.prop in ("C14", "C17"):
-            counters.append(("path", "TRUE", "MC_Routing-path-regex-walk", "computeAllowedMethods matches with the templates' regular expressions"))
+            counters.append(("path", dict(OptionsViaRouter=1), "OptionsInv", "MC_Routing-path-regex-walk",
+                             "computeAllowedMethods matches with the templates' regular expressions"))
+        if run.prop in ("C01", "C02"):
+            # the three repairs of CurlyRouter's matching: each earlier behaviour is outside Layer A
+            counters.append(("sufroot", dict(SuffixChecked=1), "Check", "MC_Routing-legacy-suffix", "a {v}suffix route token admits every segment (legacy)"))
+            counters.append(("sufroot", dict(RootSuffixChecked=1), "Check", "MC_Routing-legacy-root-suffix",
+                             "a {v}suffix token of a root path admits every segment (legacy)"))
+            counters.append(("sufroot", dict(RootRegexChecked=1), "Check", "MC_Routing-legacy-root-regex",
+                             "the regular expression of a root path parameter is not evaluated (legacy)"))
 
         def run_counter(cm):
-            mode, selected_only, tag, what = cm
-            return cm, tlc(run, "MC_Routing", MC_CFG % (mode, "quick", "TRUE", "TRUE", selected_only, "FALSE"), workers=per, heap="6g",
-                           tag=tag, expect_violation=True)
+            mode, legacy, want, tag, what = cm
+            return cm, tlc(run, "MC_Routing", mc_cfg(mode, "quick", **legacy), workers=per, heap="6g", tag=tag, expect_violation=True)
 
         # the pools are independent models: explored side by side
         with cf.ThreadPoolExecutor(max_workers=3) as ex:
             fut_c = [ex.submit(run_counter, cm) for cm in counters]
             results = list(ex.map(run_mode, modes))
             for f in fut_c:
-                (mode, selected_only, tag, what), r = f.result()
-                if r.violated != "OptionsInv":
-                    raise Infra("vacuity: the counter-model '%s' was NOT refuted by OptionsInv (%s)" % (what, r.violated))
+                (mode, legacy, want, tag, what), r = f.result()
+                if r.violated != want:
+                    raise Infra("vacuity: the counter-model '%s' was NOT refuted by %s (%s)" % (what, want, r.violated))
                 mc_exhaustive.append({"counter_model": what, "refuted_by": r.violated})
         for (mode, mtier), r in results:
             if r.violated:
